@@ -231,10 +231,13 @@ func buildPlan(id string, pinned map[string]string, tier string) *Plan {
 				}
 			}
 		}
+		for _, f := range []string{"koalabear", "babybear"} {
+			p.Units = append(p.Units, Unit{Pkg: "./field/" + f + "/sis", Tags: "purego", Groups: []string{"sis"}})
+		}
 		p.Trusted = []string{"ring layer over fr.Element (C01 contracts)", "published Poseidon2 matrices for widths 2 and 3 and S-box degree per curve", "documented MiMC instances: exponent and number of rounds per curve (gcv/gen_tower.go mimcParams)",
 			"the round-constant table is a fixed array (its derivation from Keccak is not under contract)"}
 		p.Trusted = append(p.Trusted, "Merkle-Damgard wrapper: assumed contracts of the Compressor interface (positive block size; Compress reads its arguments, keeps and writes none of them, returns a slice it allocated)")
-		p.NotCovered = []string{"Poseidon2 permutations and wrappers, ring-SIS, registration (RegisterHash / New / the imports of hash/all), Reset / Size / BlockSize of the Merkle-Damgard wrapper: not under contract",
+		p.NotCovered = []string{"Poseidon2 permutations and wrappers, what the ring-SIS hash computes (limb decomposition, sum of negacyclic products: only the guards, the zeroing, the final reduction call and the frame of RSis.Hash of koalabear and babybear are under contract, portable build), registration (RegisterHash / New / the imports of hash/all), Reset / Size / BlockSize of the Merkle-Damgard wrapper: not under contract",
 			"MiMC round-constant derivation (sha3): not under contract", "digest.Reset / WriteString / State: not under contract"}
 		p.Note = "MiMC: encrypt is the documented number of rounds of x -> (x + k + c_i)^d followed by + k (recursive specification, loop invariant); checksum is the Miyaguchi-Preneel fold over the absorbed blocks; Write never slices its input beyond len(p) (strict slice obligations), accepts only whole blocks (or one short left-padded block) and reports the bytes it consumed, keeps every block absorbed by earlier writes (in order, whatever the outcome of this one) and adds exactly the blocks it reports; SetState and Sum flush the pending blocks. Merkle-Damgard Write: every block handed to the compression function is the next block-size bytes of the input (the same window, unchanged) or, for a short remainder, a buffer of exactly one block holding zeros followed by the remaining bytes; the chaining value handed over is the current state. Its Sum appends a copy of the state to its argument and leaves the hasher unchanged (hash.Hash); State returns a copy; SetState and the constructor copy the slice they are given (no slice held by a caller is kept or handed out). Small-field Poseidon2 (koalabear, babybear, goldilocks): Compress accepts only two inputs of half a state each, and (lemma function) these are the sizes BlockSize reports, as the Compressor interface promises. The registry's Hash.Size reports, for each of its 19 hashes, the digest size computed from the pinned modulus of the scalar field (one element) resp. from the published small-field parameters (half a state)."
 		return p
